@@ -176,6 +176,8 @@ def rule_e(ctx):
 
 
 def run(ctx):
+    from .. import fixtures
+    ctx.guarded("C08.FX", lambda c: fixtures.run(c, ['effects', 'loops']))
     ctx.guarded("C08.e", rule_e)
     cone = ctx.guarded("C08.a", rule_a)
     if cone:
